@@ -167,6 +167,25 @@ func (m *Machine) verifrt(name string, args []Value, g *Term, site ssa.Instructi
 			m.runGo(t, g)
 		}
 		return nil
+	case "RunPendingNamed":
+		// run only the recorded go tasks whose function name contains the given text
+		want := m.argStr(args[0], name)
+		tasks := m.pendingGo
+		m.pendingGo = nil
+		var keep []GoTask
+		for _, t := range tasks {
+			fn := ""
+			if t.Fn != nil {
+				fn = t.Fn.String()
+			}
+			if strings.Contains(fn, want) {
+				m.runGo(t, g)
+			} else {
+				keep = append(keep, t)
+			}
+		}
+		m.pendingGo = append(keep, m.pendingGo...)
+		return nil
 	case "DropPending":
 		m.pendingGo = nil
 		return nil
